@@ -1,6 +1,7 @@
 import Mdsort.Proofs.Lex
 import Mdsort.Proofs.ConfBasic
 import Mdsort.Spec.Conf
+import Mdsort.Spec.ConfDefect
 
 /-!
 # The lexer reads back every token `Spec.render` writes
@@ -39,6 +40,19 @@ def modeOK (pf sf : Bool) : PTok → Bool
   | .seconds => !pf && sf
   | .str _ => true
   | _ => !pf
+
+/-- What the lexer can read back, whether or not it means itself: as `tokOK`, but a string may hold `$`. -/
+def lexOK : PTok → Bool
+  | .str b => strLexOK b
+  | t => tokOK t
+
+theorem strLexOK_of_strOK {b : Bytes} (h : strOK b = true) : strLexOK b = true := by
+  simp only [strOK, Bool.and_eq_true, List.all_eq_true, bne_iff_ne, ne_eq, decide_eq_true_eq] at h
+  simp only [strLexOK, Bool.and_eq_true, List.all_eq_true, bne_iff_ne, ne_eq, decide_eq_true_eq]
+  exact ⟨⟨⟨⟨h.1.1.1.1, fun c hc => (h.1.1.1.2 c hc).1⟩, h.1.1.2⟩, h.1.2⟩, h.2⟩
+
+theorem lexOK_of_tokOK {t : PTok} (h : tokOK t = true) : lexOK t = true := by
+  cases t <;> first | exact strLexOK_of_strOK h | exact h
 
 theorem render_nil : Spec.render [] = [] := rfl
 theorem render_cons (t : PTok) (ts : List PTok) : Spec.render (t :: ts) = 32 :: (t.bytes ++ Spec.render ts) := by
@@ -233,11 +247,19 @@ theorem strOK_facts {b : Bytes} (h : strOK b = true) :
   · intro hb; subst hb; simp at h1
   · simp only [BUFSIZ]; omega
 
-theorem lex_tok (t : PTok) (ts : List PTok) (pf sf : Bool) (hok : tokOK t = true) (hm : modeOK pf sf t = true) :
-    ∃ tok, lex1 pf sf false (Spec.render (t :: ts)) = { tok := tok, rest := Spec.render ts, errors := 0 } ∧
+theorem strLexOK_facts {b : Bytes} (h : strLexOK b = true) :
+    b ≠ [] ∧ (0 : UInt8) ∉ b ∧ (10 : UInt8) ∉ b ∧ b.head? ≠ some 126 ∧ b.getLast? ≠ some 92 ∧ b.length < BUFSIZ - 1 := by
+  simp only [strLexOK, Bool.and_eq_true, Bool.not_eq_true', List.all_eq_true, bne_iff_ne, ne_eq, decide_eq_true_eq] at h
+  obtain ⟨⟨⟨⟨h1, h2⟩, h3⟩, h4⟩, h5⟩ := h
+  refine ⟨?_, fun h => (h2 _ h).1 rfl, fun h => (h2 _ h).2 rfl, h3, h4, ?_⟩
+  · intro hb; subst hb; simp at h1
+  · simp only [BUFSIZ]; omega
+
+/-- The lexer reads back a written token in front of ANY text `rest` that is empty or starts with a blank. -/
+theorem lex_tok_tl (t : PTok) (rest : Bytes) (pf sf : Bool) (hok : lexOK t = true) (hm : modeOK pf sf t = true)
+    (hr : ∀ c, rest.head? = some c → c = 32) :
+    ∃ tok, lex1 pf sf false (32 :: (t.bytes ++ rest)) = { tok := tok, rest := rest, errors := 0 } ∧
       Tk.ofToken tok = tkOf t ∧ (match tok with | .macro _ => true | _ => false) = false := by
-  have hr := render_head ts
-  rw [render_cons]
   cases t with
   | kw k =>
     have hpf : pf = false := by simpa [modeOK] using hm
@@ -245,22 +267,22 @@ theorem lex_tok (t : PTok) (ts : List PTok) (pf sf : Bool) (hok : tokOK t = true
     refine ⟨.keyword (kwName k), lex1_kw sf k _ hr, ?_, rfl⟩
     simp [Tk.ofToken, (kw_entry k).2, tkOf]
   | str b =>
-    obtain ⟨hne, hnul, _, _, _, hlast, hlen⟩ := strOK_facts (by simpa [tokOK] using hok)
+    obtain ⟨hne, hnul, _, _, hlast, hlen⟩ := strLexOK_facts (by simpa [lexOK] using hok)
     refine ⟨.str b, ?_, rfl, rfl⟩
     have h1 : isspace 34 = false := by decide
     have h2 : ((34 : UInt8) == 35) = false := by decide
-    have := lex_string_roundtrip pf sf b (Spec.render ts) hne hnul hlast hlen
+    have := lex_string_roundtrip pf sf b rest hne hnul hlast hlen
     simp only [PTok.bytes, List.cons_append, List.nil_append, List.append_assoc] at this ⊢
     rw [lex1_blank _ _ _ _ h1 h2]
     exact this
   | int n =>
     have hpf : pf = false := by simpa [modeOK] using hm
     subst hpf
-    have hn : n < 2 ^ 32 := by simpa [tokOK] using hok
+    have hn : n < 2 ^ 32 := by simpa [lexOK, tokOK] using hok
     refine ⟨.int n, ?_, rfl, rfl⟩
-    have hr' : ∀ c, (Spec.render ts).head? = some c → isdigit c = false := by
+    have hr' : ∀ c, rest.head? = some c → isdigit c = false := by
       intro c hc; rw [hr c hc]; decide
-    have := (lex_int sf n (Spec.render ts) hr').1 hn
+    have := (lex_int sf n rest hr').1 hn
     obtain ⟨ds, hbytes, hne, hdig, _⟩ := LexAux.toString_bytes n
     simp only [PTok.bytes]
     cases ds with
@@ -277,7 +299,7 @@ theorem lex_tok (t : PTok) (ts : List PTok) (pf sf : Bool) (hok : tokOK t = true
     refine ⟨.scalar (some 1), ?_, rfl, rfl⟩
     have h1 : isspace 115 = false := by decide
     have h2 : ((115 : UInt8) == 35) = false := by decide
-    have := lex1_seconds (Spec.render ts) hr
+    have := lex1_seconds rest hr
     simp only [PTok.bytes, List.cons_append] at this ⊢
     rw [lex1_blank _ _ _ _ h1 h2]
     exact this
@@ -287,8 +309,8 @@ theorem lex_tok (t : PTok) (ts : List PTok) (pf sf : Bool) (hok : tokOK t = true
     refine ⟨.pattern p.src p.icase p.lcase p.ucase, ?_, rfl, rfl⟩
     have h1 : isspace 47 = false := by decide
     have h2 : ((47 : UInt8) == 35) = false := by decide
-    have := lex1_pattern sf p (by simpa [tokOK] using hok) (Spec.render ts) hr
-    have hb : (PTok.pat p).bytes ++ Spec.render ts = 47 :: ((PTok.pat p).bytes.tail ++ Spec.render ts) := by
+    have := lex1_pattern sf p (by simpa [lexOK, tokOK] using hok) rest hr
+    have hb : (PTok.pat p).bytes ++ rest = 47 :: ((PTok.pat p).bytes.tail ++ rest) := by
       simp [PTok.bytes]
     rw [hb] at this ⊢
     rw [lex1_blank _ _ _ _ h1 h2]
@@ -335,5 +357,56 @@ theorem lex_tok (t : PTok) (ts : List PTok) (pf sf : Bool) (hok : tokOK t = true
     refine ⟨.char 62, ?_, by decide, rfl⟩
     simp only [PTok.bytes, List.cons_append, List.nil_append]
     rw [lex1_blank _ _ _ _ (by decide) (by decide), lex1_punct _ _ _ (by simp)]
+
+theorem lex_tok (t : PTok) (ts : List PTok) (pf sf : Bool) (hok : tokOK t = true) (hm : modeOK pf sf t = true) :
+    ∃ tok, lex1 pf sf false (Spec.render (t :: ts)) = { tok := tok, rest := Spec.render ts, errors := 0 } ∧
+      Tk.ofToken tok = tkOf t ∧ (match tok with | .macro _ => true | _ => false) = false := by
+  rw [render_cons]
+  exact lex_tok_tl t (Spec.render ts) pf sf (lexOK_of_tokOK hok) hm (render_head ts)
+
+/-- The first byte of a written token starts a token: no blank, no `#`. -/
+theorem tok_first (t : PTok) (hok : lexOK t = true) :
+    ∃ c r, t.bytes = c :: r ∧ isspace c = false ∧ (c == 35) = false := by
+  cases t with
+  | kw k =>
+    have hk := (kw_entry k).1
+    have hok := List.all_eq_true.mp LexAux.kw_table _ hk
+    simp only [LexAux.kwOk, Bool.and_eq_true, decide_eq_true_eq, beq_iff_eq] at hok
+    obtain ⟨⟨⟨_, _⟩, hhead⟩, _⟩ := hok
+    cases hbs : (kwText k).toUTF8.toList with
+    | nil => rw [hbs] at hhead; simp at hhead
+    | cons c t =>
+      rw [hbs] at hhead
+      simp only at hhead
+      obtain ⟨h1, _, h3, _, _⟩ := LexAux.islower_facts c hhead
+      exact ⟨c, t, hbs, h1, h3⟩
+  | int n =>
+    obtain ⟨ds, hbytes, hne, hdig, _⟩ := LexAux.toString_bytes n
+    cases ds with
+    | nil => exact absurd rfl hne
+    | cons c r =>
+      have hc := LexAux.isdigit_facts c (hdig c (by simp))
+      exact ⟨c, r, hbytes, hc.1, hc.2.2.1⟩
+  | str b => exact ⟨34, _, rfl, by decide, by decide⟩
+  | seconds => exact ⟨115, _, rfl, by decide, by decide⟩
+  | pat p => exact ⟨47, _, by simp only [PTok.bytes, List.cons_append, List.nil_append, List.append_assoc]; rfl, by decide, by decide⟩
+  | bang => exact ⟨33, _, rfl, by decide, by decide⟩
+  | lbrace => exact ⟨123, _, rfl, by decide, by decide⟩
+  | rbrace => exact ⟨125, _, rfl, by decide, by decide⟩
+  | lparen => exact ⟨40, _, rfl, by decide, by decide⟩
+  | rparen => exact ⟨41, _, rfl, by decide, by decide⟩
+  | lt => exact ⟨60, _, rfl, by decide, by decide⟩
+  | gt => exact ⟨62, _, rfl, by decide, by decide⟩
+
+/-- `yylval.lineno` of a token written after one blank: the line the lexer stands on. -/
+theorem tokLineOf_blank (nl : Nat) (c : UInt8) (r : Bytes) (h1 : isspace c = false) (h2 : (c == 35) = false) :
+    tokLineOf nl (32 :: c :: r) = lineOf nl (c :: r) := by
+  have h32 : isspace 32 = true := by decide
+  have hc : c ≠ 35 := by simpa using h2
+  unfold tokLineOf
+  simp only [List.length_cons, skipBlank, List.dropWhile_cons, h32, h1, if_true, Bool.false_eq_true, if_false]
+  split
+  · rename_i heq; simp only [List.cons.injEq] at heq; exact absurd heq.1 hc
+  · simp [lineOf, countNl]
 
 end Mdsort.Proofs.Conf
